@@ -337,6 +337,24 @@ pub fn parse_debit_credit_mark(input: char) -> Result<String, ParseError> {
     Ok(input.to_string())
 }
 
+/// Split a field's content into its lines.
+///
+/// Every line of a SWIFT field carries at least one character, so an empty content, a blank
+/// line and a trailing line break are format errors (`str::lines` would silently drop a
+/// trailing line break, and callers used to drop or keep blank lines inconsistently).
+pub fn content_lines<'a>(input: &'a str, field_name: &str) -> Result<Vec<&'a str>, ParseError> {
+    let lines: Vec<&str> = input
+        .split('\n')
+        .map(|line| line.strip_suffix('\r').unwrap_or(line))
+        .collect();
+    if let Some(i) = lines.iter().position(|line| line.is_empty()) {
+        return Err(ParseError::InvalidFormat {
+            message: format!("{} line {} is empty", field_name, i + 1),
+        });
+    }
+    Ok(lines)
+}
+
 /// Validate multi-line text with specific constraints
 /// Returns validated lines as Vec<String>
 pub fn validate_multiline_text(
@@ -429,10 +447,9 @@ pub fn parse_multiline_text(
     max_lines: usize,
     max_line_length: usize,
 ) -> Result<Vec<String>, ParseError> {
-    let lines: Vec<String> = input
-        .lines()
+    let lines: Vec<String> = content_lines(input, "Text")?
+        .into_iter()
         .map(|s| s.to_string())
-        .filter(|s| !s.is_empty())
         .collect();
 
     if lines.len() > max_lines {
@@ -455,6 +472,7 @@ pub fn parse_multiline_text(
                 ),
             });
         }
+        parse_swift_chars(line, &format!("Line {}", i + 1))?;
     }
 
     Ok(lines)
